@@ -1,10 +1,14 @@
 #!/usr/bin/env python3
-"""run_seeds.py [name...]: apply each seeded change to /repo, run the quick check of its property, undo.
+"""run_seeds.py [--seed N] [name...]: apply each seeded change to /repo, run the quick check of its property, undo.
 Writes seeded/RESULTS.json (which check catches which change)."""
 import json, os, subprocess, sys, time
 ROOT = "/verif"
+SEED = None
+if len(sys.argv) > 2 and sys.argv[1] == "--seed":
+    SEED = sys.argv[2]
+    del sys.argv[1:3]
 names = sys.argv[1:] or sorted(d for d in os.listdir(os.path.join(ROOT, "seeded")) if os.path.isdir(os.path.join(ROOT, "seeded", d)))
-respath = os.path.join(ROOT, "seeded", "RESULTS.json")
+respath = os.path.join(ROOT, "seeded", "RESULTS.json" if SEED is None else "RESULTS.seed%s.json" % SEED)
 results = json.load(open(respath)) if os.path.exists(respath) else {}
 assert subprocess.run(["git", "-C", "/repo", "status", "--porcelain"], capture_output=True, text=True).stdout.strip() == "", "/repo not clean"
 for n in names:
@@ -17,7 +21,7 @@ for n in names:
         continue
     t0 = time.time()
     try:
-        p = subprocess.run(["./check", prop, "--tier", "quick"], cwd=ROOT, capture_output=True, text=True)
+        p = subprocess.run(["./check", prop, "--tier", "quick"] + (["--seed", SEED] if SEED is not None else []), cwd=ROOT, capture_output=True, text=True)
     finally:
         subprocess.run(["git", "-C", "/repo", "checkout", "--", "."])
     lines = [l for l in p.stdout.split("\n") if l.startswith("VIOLATION")]
